@@ -14,6 +14,7 @@ verus! {
 //@include prelude/io_error.rs
 //@include prelude/sync.rs
 //@include prelude/vecdeque.rs
+//@include prelude/option.rs
 
 pub assume_specification<T: ?Sized>[ Mutex::<T>::lock ](m: &Mutex<T>) -> (r: std::sync::LockResult<std::sync::MutexGuard<'_, T>>)
     ensures r is Ok, guard_of(&r->Ok_0) == m;
@@ -122,7 +123,6 @@ proof fn axiom_receive_step<T: Send>(q: &MessagesQueue<T>, q0: Seq<Control<T>>, 
         proof { axiom_enqueue_unblock(self, q0, gval(&queue)@); }
 //@endfn
 
-#[verifier::exec_allows_no_decreases_clause]
 //@fn pop ret res props C07,C17
 //@spec
     ensures received(self, res),
@@ -132,13 +132,11 @@ proof fn axiom_receive_step<T: Send>(q: &MessagesQueue<T>, q0: Seq<Control<T>>, 
             invariant may_block(),
 //@loopentry 1
             let ghost q0 = gval(&queue)@;
-//@before 1 return
-                    // O-POP: atomic step: the head is removed and handed to exactly this caller
-                    proof { axiom_receive_step(self, q0, gval(&queue)@, Some(value), false); }
-//@before? 2 return
-                    // an Unblock token is consumed by exactly one receive call, which returns empty-handed
-                    proof { axiom_receive_step(self, q0, gval(&queue)@, None::<T>, false); }
-//@before 1 queue = self . condvar . wait
+//@atexit
+                    // O-POP: atomic step: the head is removed and handed to exactly this caller; an Unblock token is consumed
+                    // by exactly one receive call, which returns empty-handed; a blocking receive never returns otherwise
+                    proof { axiom_receive_step(self, q0, gval(&queue)@, $r, false); }
+//@before? 1 queue = self . condvar . wait
             // it blocks only after having inspected the queue, under the lock, and found it empty
             proof { assert(gval(&queue)@ == q0 && q0.len() == 0); }
 //@endfn
@@ -148,13 +146,12 @@ proof fn axiom_receive_step<T: Send>(q: &MessagesQueue<T>, q0: Seq<Control<T>>, 
     ensures received(self, res),     // and no may_block(): it cannot call Condvar::wait*
 //@after 1 lock ( ) . unwrap ( )
         let ghost q0 = gval(&queue)@;
-//@before 1 Some ( value )
-                proof { axiom_receive_step(self, q0, gval(&queue)@, Some(value), true); }
-//@before 1 None ,
-                proof { axiom_receive_step(self, q0, gval(&queue)@, None::<T>, true); }
+//@atexit
+        // O-TRYPOP: one atomic step: at most the head is removed, a request goes to exactly this caller, an Unblock
+        // token makes exactly this call come back empty-handed
+        proof { axiom_receive_step(self, q0, gval(&queue)@, $r, true); }
 //@endfn
 
-#[verifier::exec_allows_no_decreases_clause]
 //@fn pop_timeout ret res props C07,C17
 //@spec
     ensures received(self, res),
@@ -164,14 +161,12 @@ proof fn axiom_receive_step<T: Send>(q: &MessagesQueue<T>, q0: Seq<Control<T>>, 
             invariant may_block(),
 //@loopentry 1
             let ghost q0 = gval(&queue)@;
-//@before 1 return
-                    proof { axiom_receive_step(self, q0, gval(&queue)@, Some(value), true); }
-//@before? 2 return
-                    proof { axiom_receive_step(self, q0, gval(&queue)@, None::<T>, true); }
-//@before 1 let now
+//@atexit
+                    proof { axiom_receive_step(self, q0, gval(&queue)@, $r, true); }
+//@before? 1 let now
             proof { assert(gval(&queue)@ == q0 && q0.len() == 0); }
-//@before? 3 return
-                proof { axiom_receive_step(self, gval(&queue)@, gval(&queue)@, None::<T>, true); }
+//@after? 1 queue = _queue
+            let ghost q0 = gval(&queue)@;   // after the wait the protected value is whatever the other threads left
 //@endfn
 //@endimpl
 
